@@ -223,7 +223,7 @@ fn run_scripts(ctx: &Ctx) -> CheckResult {
         ctx.skipped("scripts: stream helpers not compiled");
         return Ok(());
     }
-    let cases = ctx.tier.pick(500u32, 8000);
+    let cases = ctx.tier.pick(1200u32, 12000);
     for va in ctx.api.variants() {
         let v = va.v();
         ctx.pt_run(
